@@ -31,8 +31,8 @@ def values_for(rng, dt, shape):
 
 def stmt_failure(desc, ints, peaks, dt):
     pattern = cl.pattern_from_desc(desc)
-    frames = ints.astype(dt)[np.newaxis]
-    ref_frames = ints.astype('f8')[np.newaxis]
+    frames = ints.astype(dt)[np.newaxis] if ints.ndim == 2 else ints.astype(dt)          # (fy, fx) or a stack (n, fy, fx)
+    ref_frames = frames.astype('f8')
     frames0 = frames.copy()
     # call history on ONE typed array (full, then fast, then full again): no call may depend on an earlier one, and the frames
     # passed in must not be modified (np.asarray does not copy an array that already has the requested dtype)
@@ -43,11 +43,20 @@ def stmt_failure(desc, ints, peaks, dt):
                 return '%s modified the %s frames passed in' % (name, dt)
         except Exception as e:  # noqa
             return '%s raised %s for dtype %s: %s' % (name, type(e).__name__, dt, str(e)[:200])
-        b = fn(pattern, ref_frames, np.asarray(peaks))
+        try:
+            b = fn(pattern, ref_frames, np.asarray(peaks))
+        except Exception as e:  # noqa
+            return '%s raised %s for the same pixel values as float64: %s' % (name, type(e).__name__, str(e)[:200])
         sc = float(np.abs(b[2]).max()) + 1.0
         for nm, x in zip(('refineds', 'heights', 'elevations'), a[1:]):
             if not np.isfinite(x).all():
                 return '%s: %s not finite for dtype %s (overflow / wrap-around): %s' % (name, nm, dt, np.asarray(x).tolist())
+        if not np.array_equal(a[0], b[0]) and ints.ndim == 3:
+            nf = int(np.argwhere((a[0] != b[0]).any(axis=(1, 2)))[0][0])
+            if not np.allclose(a[2][nf], b[2][nf], rtol=2e-4, atol=2e-4 * sc):
+                return '%s: frame #%d of a stack: centres for dtype %s %s differ from float64 %s (heights %s vs %s)' % (
+                    name, nf, dt, a[0][nf].tolist(), b[0][nf].tolist(), a[2][nf].tolist(), b[2][nf].tolist())
+            continue
         if not np.array_equal(a[0], b[0]):
             # centres may differ only on near ties
             maps, scale = cl.oracle_maps(pattern, ints.astype(np.float64), peaks, 'fast' if 'fast' in name else 'full')
@@ -58,7 +67,7 @@ def stmt_failure(desc, ints, peaks, dt):
                 if not (0 <= u[0] < 2 * c and 0 <= u[1] < 2 * c) or abs(maps[i][u[0], u[1]] - maps[i][w[0], w[1]]) > 3e-4 * scale + 2e-3:
                     return '%s: centres for dtype %s %s differ from float64 %s' % (name, dt, a[0].tolist(), b[0].tolist())
             continue
-        for nm, x, y, tol, s in (('refineds', a[1], b[1], 2e-3, 1.0), ('heights', a[2], b[2], 2e-4, sc), ('elevations', a[3], b[3], 1e-3, sc)):
+        for nm, x, y, tol, s in (('refineds', a[1], b[1], 2e-3, 1.0), ('heights', a[2], b[2], 2e-5, sc), ('elevations', a[3], b[3], 1e-3, sc)):
             if not np.allclose(x, y, rtol=tol, atol=tol * s):
                 return '%s: %s for dtype %s %s differ from float64 %s' % (name, nm, dt, np.asarray(x).tolist(), np.asarray(y).tolist())
     return None
@@ -124,8 +133,27 @@ def run(ctx):
     nS = ctx.n(6, 60)
     found = False
     nBig = ctx.n(1, 4)
-    for k in range(nS + nBig):
-        if k < nS:
+    nEdge = ctx.n(4, 20)
+    for k in range(nS + nBig + 1 + nEdge):
+        if k > nS + nBig:
+            # non-square frames (tall and wide), windows overhanging exactly one edge by a few pixels, always as a stack of frames
+            pattern, desc = cl.rand_pattern(rng, cmax=5, kinds=['Circular', 'RadialGradient', 'BackgroundSubtraction'])
+            c = pattern.get_crop_size()
+            a_, b_ = int(rng.integers(2 * c + 4, 30)), int(rng.integers(8, 34))
+            fy, fx = (a_ + b_, a_) if k % 2 else (a_, a_ + b_)
+            d = int(rng.integers(1, c + 1))
+            peaks = [(int(rng.integers(c, fy - c)), fx - c + d), (fy - c + d, int(rng.integers(c, fx - c))), (int(rng.integers(c, fy - c)), c - d), (c - d, int(rng.integers(c, fx - c)))]
+            # always the overhang across the LONG axis' far edge... of the short axis: right edge for tall, bottom edge for wide frames
+            first = peaks[0] if fy > fx else peaks[1]
+            peaks = [first] + [peaks[i] for i in rng.permutation(4)[:int(rng.integers(0, 3))] if peaks[i] != first]
+        elif k == nS + nBig:
+            # one window larger than the crop-buffer budget for float64 buffers but not for float32 buffers
+            c = 130
+            desc = {'kind': 'Circular', 'radius': 3.0, 'search': float(c), 'radius_outer': None}
+            pattern = cl.pattern_from_desc(desc)
+            fy, fx = 30, 36
+            peaks = [(15, 18)]
+        elif k < nS:
             pattern, desc = cl.rand_pattern(rng, cmax=5, kinds=['Circular', 'RadialGradient', 'BackgroundSubtraction', 'RadialGradientBackgroundSubtraction'])
             c = pattern.get_crop_size()
             fy, fx = int(rng.integers(2 * c + 2, 40)), int(rng.integers(2 * c + 2, 40))
@@ -141,6 +169,7 @@ def run(ctx):
             npk = int(rng.integers(b64 + 1, 2 * b64))
             peaks = [(int(rng.integers(c, fy - c)), int(rng.integers(c, fx - c))) for _ in range(npk)]
             ctx.hist('blocks for float64 buffers / float32 buffers', '%d/%d' % (-(-npk // b64), -(-npk // blc.get_buf_count(c, npk, np.dtype('f4')))))
+        stack = (k % 3 == 1) or k > nS + nBig
         for dt in DTYPES:
             ints = values_for(rng, dt, (fy, fx))
             # a few bright disks so that the maxima are well defined
@@ -148,8 +177,11 @@ def run(ctx):
             hi = int(ints.max())
             for p in peaks:
                 ints = np.where((yy - p[0]) ** 2 + (xx - p[1]) ** 2 <= max(1.0, (min(c, 8) / 2.0)) ** 2, hi, ints)
+            if stack:
+                # a stack of three frames with different content (the batch helpers re-use their buffers from frame to frame)
+                ints = np.stack([ints, np.roll(ints, 3, axis=0)[::-1], np.roll(ints, -2, axis=1)])
             fail = stmt_failure(desc, ints, peaks, dt)
-            ctx.count(2 * len(peaks), key=(desc, fy, fx, peaks, dt))
+            ctx.count(2 * len(peaks), key=(desc, fy, fx, peaks, dt, stack))
             ctx.hist('dtype', dt)
             if fail:
                 sig = fail
